@@ -101,7 +101,7 @@ theorem approved (w : Bool) (v : Verdict) (path P : CStr) (h : checkValidPath tr
     · simp [hl] at h
 
 theorem any_okBy (apps : List Approval) (fn : String) (w : Bool) (p : CStr) (a : Approval)
-    (hm : a ∈ apps) (hl : specLegal a.path = true) (hc : covers a.path p = true)
+    (hm : a ∈ apps) (hl : specLegal a.path = true) (hc : covers fn a.path p = true)
     (hk : (if w then a.w else (!a.w || fn == "stat")) = true) : apps.any (okBy fn w p) = true := by
   rw [List.any_eq_true]
   exact ⟨a, hm, by simp [okBy, hl, hc, hk]⟩
@@ -163,7 +163,7 @@ theorem segOk_append (f : String) : ∀ (e1 e2 : List Ev) (apps : List Approval)
     | call _ _ _ => exact absurd h1 (by simp [segOk])
     | mode _ => exact absurd h1 (by simp [segOk])
 
-theorem covers_self (a : CStr) : covers a a = true := by simp [covers]
+theorem covers_self (fn : String) (a : CStr) : covers fn a a = true := by simp [covers]
 
 /-! ### the efuns -/
 
@@ -173,33 +173,37 @@ theorem segOk_single (f : String) (pol : Policy) (w : Bool) (op fn : String) (fw
     segOk f apps (single pol w op fn fw a) := by
   unfold single ask
   simp only
-  cases h : checkValidPath true (pol.verdict a) a with
+  cases h : checkValidPath true (pol.verdict w a) a with
   | none => simp [segOk, hop]
   | some P =>
     obtain ⟨h1, h2, h3, _⟩ := approved w _ _ _ h
     simp only [List.singleton_append, segOk, h1, Option.toList_some, hop, h3, true_and, and_true]
-    exact any_okBy _ fn fw P ⟨w, P⟩ (by simp) h2 (covers_self P) hk
+    exact any_okBy _ fn fw P ⟨w, P⟩ (by simp) h2 (covers_self _ P) hk
 
-theorem covers_listDir (a : CStr) : covers a (listDir a) = true := by simp [covers]
-theorem covers_parent (a : CStr) : covers a (parentDir (listDir a)) = true := by simp [covers]
-theorem covers_strip (a : CStr) : covers a (stripTrailSlash a) = true := by simp [covers]
-theorem covers_tmp (a : CStr) : covers a (a.take 250 ++ str ".tmp") = true := by simp [covers]
+theorem covers_listDir (fn : String) (a : CStr) (h : fn = "stat" ∨ fn = "opendir") :
+    covers fn a (listDir a) = true := by rcases h with rfl | rfl <;> simp [covers]
+theorem covers_parent (a : CStr) : covers "opendir" a (parentDir (listDir a)) = true := by simp [covers]
+theorem covers_strip (fn : String) (a : CStr) (h : fn = "rename" ∨ fn = "symlink") :
+    covers fn a (stripTrailSlash a) = true := by rcases h with rfl | rfl <;> simp [covers]
+theorem covers_tmp (fn : String) (a : CStr) (h : fn = "fopen" ∨ fn = "rename" ∨ fn = "unlink") :
+    covers fn a (a.take 250 ++ str ".tmp") = true := by rcases h with rfl | rfl | rfl <;> simp [covers]
 
-theorem covers_child (a b : CStr) (hb : '/' ∉ b) (hd : b ≠ dotdot) : covers a (a ++ ['/'] ++ b) = true := by
+theorem covers_child (fn : String) (a b : CStr) (hf : fn = "open" ∨ fn = "rename-to" ∨ fn = "symlink-to")
+    (hb : '/' ∉ b) (hd : b ≠ dotdot) : covers fn a (a ++ ['/'] ++ b) = true := by
   have : childOf a (a ++ ['/'] ++ b) = true := by
     unfold childOf
     simp only [List.take_left', List.drop_left', List.length_append, List.length_cons, List.length_nil]
     simp [hb, hd]
   have this' : childOf a (a ++ '/' :: b) = true := by simpa using this
-  simp [covers, this']
+  rcases hf with rfl | rfl | rfl <;> simp [covers, this']
 
 theorem segOk_getDirFs (f : String) (ex : List CStr) (P : CStr) (apps : List Approval)
     (hm : (⟨false, P⟩ : Approval) ∈ apps) (hl : specLegal P = true) (hs : safe P = true) :
     segOk f apps (getDirFs ex P) := by
   have k1 : apps.any (okBy "stat" false (listDir P)) = true :=
-    any_okBy _ _ _ _ ⟨false, P⟩ hm hl (covers_listDir P) (by simp)
+    any_okBy _ _ _ _ ⟨false, P⟩ hm hl (covers_listDir _ P (Or.inl rfl)) (by simp)
   have k2 : apps.any (okBy "opendir" false (listDir P)) = true :=
-    any_okBy _ _ _ _ ⟨false, P⟩ hm hl (covers_listDir P) (by simp)
+    any_okBy _ _ _ _ ⟨false, P⟩ hm hl (covers_listDir _ P (Or.inr rfl)) (by simp)
   have k3 : apps.any (okBy "opendir" false (parentDir (listDir P))) = true :=
     any_okBy _ _ _ _ ⟨false, P⟩ hm hl (covers_parent P) (by simp)
   have s1 := safe_listDir P hs
@@ -212,7 +216,7 @@ theorem segOk_getDir (f : String) (pol : Policy) (ex : List CStr) (a : CStr) (ap
     (hop : opOk f "stat" = true) : segOk f apps (getDir pol ex a) := by
   unfold getDir ask
   simp only
-  cases h : checkValidPath true (pol.verdict a) a with
+  cases h : checkValidPath true (pol.verdict false a) a with
   | none => simp [segOk, hop]
   | some P =>
     obtain ⟨h1, h2, h3, _⟩ := approved false _ _ _ h
@@ -223,12 +227,12 @@ theorem segOk_stat (f : String) (pol : Policy) (ex : List CStr) (a : CStr) (apps
     (hop : opOk f "stat" = true) : segOk f apps (statEfun pol ex a) := by
   unfold statEfun ask
   simp only
-  cases h : checkValidPath true (pol.verdict a) a with
+  cases h : checkValidPath true (pol.verdict false a) a with
   | none => simp [segOk, hop]
   | some P =>
     obtain ⟨h1, h2, h3, _⟩ := approved false _ _ _ h
     simp only [List.singleton_append, segOk, h1, Option.toList_some, hop, true_and, h3]
-    refine ⟨any_okBy _ _ _ _ ⟨false, P⟩ (by simp) h2 (covers_self P) (by simp), ?_⟩
+    refine ⟨any_okBy _ _ _ _ ⟨false, P⟩ (by simp) h2 (covers_self _ P) (by simp), ?_⟩
     split
     · trivial
     · exact segOk_getDir f pol ex a _ hop
@@ -238,13 +242,14 @@ theorem baseName_ne_dotdot (p : CStr) (h : safe p = true) : baseName p ≠ dotdo
 
 /-- target of `rename` / `link` / `cp`: the approved path, or (it is a directory) that path + "/" + last
     component of the source -/
-theorem target_ok (to src : CStr) (c : Bool) (h0 : to ≠ []) (hs : safe to = true) (hsrc : safe src = true) :
-    covers to (if c then to ++ ['/'] ++ baseName src else to) = true ∧
+theorem target_ok (fn : String) (to src : CStr) (c : Bool) (hf : fn = "open" ∨ fn = "rename-to" ∨ fn = "symlink-to")
+    (h0 : to ≠ []) (hs : safe to = true) (hsrc : safe src = true) :
+    covers fn to (if c then to ++ ['/'] ++ baseName src else to) = true ∧
     safe (if c then to ++ ['/'] ++ baseName src else to) = true := by
   cases c with
-  | false => exact ⟨covers_self to, hs⟩
+  | false => exact ⟨covers_self _ to, hs⟩
   | true =>
-    exact ⟨covers_child to _ (baseName_noslash src) (baseName_ne_dotdot src hsrc),
+    exact ⟨covers_child fn to _ hf (baseName_noslash src) (baseName_ne_dotdot src hsrc),
            safe_child to _ h0 hs (baseName_noslash src) (baseName_ne_dotdot src hsrc)⟩
 
 theorem segOk_rename (f : String) (pol : Policy) (ex : List CStr) (sym : Bool) (a b : CStr)
@@ -252,20 +257,21 @@ theorem segOk_rename (f : String) (pol : Policy) (ex : List CStr) (sym : Bool) (
     segOk f apps (renameEfun pol ex sym a b) := by
   unfold renameEfun ask
   simp only
-  cases h1 : checkValidPath true (pol.verdict a) a with
+  cases h1 : checkValidPath true (pol.verdict true a) a with
   | none => simp [segOk, hop1]
   | some from_ =>
     obtain ⟨a1, l1, s1, n1⟩ := approved true _ _ _ h1
-    cases h2 : checkValidPath true (pol.verdict b) b with
+    cases h2 : checkValidPath true (pol.verdict true b) b with
     | none => simp [segOk, hop1]
     | some to =>
       obtain ⟨a2, l2, s2, n2⟩ := approved true _ _ _ h2
       simp only
       generalize hfrom' : (if from_.length > 1 ∧ from_.getLast? = some '/' then stripTrailSlash from_ else from_) = from'
-      have hc' : covers from_ from' = true := by
+      have hc' : ∀ fn, fn = "rename" ∨ fn = "symlink" → covers fn from_ from' = true := by
+        intro fn hfn
         rw [← hfrom']; split
-        · exact covers_strip from_
-        · exact covers_self from_
+        · exact covers_strip fn from_ hfn
+        · exact covers_self fn from_
       have hs' : safe from' = true := by
         rw [← hfrom']; split
         · exact safe_stripTrail from_ s1
@@ -276,17 +282,22 @@ theorem segOk_rename (f : String) (pol : Policy) (ex : List CStr) (sym : Bool) (
               [Ev.fs "symlink" true from', Ev.fs "symlink-to" true (if c = true then to ++ '/' :: baseName from' else to)]
             else [Ev.fs "rename" true from', Ev.fs "rename-to" true (if c = true then to ++ '/' :: baseName from' else to)]) := by
         intro apps' c m1 m2
-        obtain ⟨tc, ts⟩ := target_ok to from' c n2 s2 hs'
-        simp only [List.append_assoc, List.singleton_append] at tc ts
-        have k1 : ∀ fn, apps'.any (okBy fn true from') = true :=
-          fun fn => any_okBy _ _ _ _ ⟨true, from_⟩ m1 l1 hc' (by simp)
-        have k2 : ∀ fn, apps'.any (okBy fn true (if c = true then to ++ '/' :: baseName from' else to)) = true :=
-          fun fn => any_okBy _ _ _ _ ⟨true, to⟩ m2 l2 tc (by simp)
-        cases sym <;> simp [segOk, k1, k2, hs', ts]
-      by_cases hr : (pol.verdict to).raises = true
+        obtain ⟨tc1, ts⟩ := target_ok "rename-to" to from' c (Or.inr (Or.inl rfl)) n2 s2 hs'
+        obtain ⟨tc2, _⟩ := target_ok "symlink-to" to from' c (Or.inr (Or.inr rfl)) n2 s2 hs'
+        simp only [List.append_assoc, List.singleton_append] at tc1 tc2 ts
+        have k1 : apps'.any (okBy "rename" true from') = true :=
+          any_okBy _ _ _ _ ⟨true, from_⟩ m1 l1 (hc' _ (Or.inl rfl)) (by simp)
+        have k1' : apps'.any (okBy "symlink" true from') = true :=
+          any_okBy _ _ _ _ ⟨true, from_⟩ m1 l1 (hc' _ (Or.inr rfl)) (by simp)
+        have k2 : apps'.any (okBy "rename-to" true (if c = true then to ++ '/' :: baseName from' else to)) = true :=
+          any_okBy _ _ _ _ ⟨true, to⟩ m2 l2 tc1 (by simp)
+        have k2' : apps'.any (okBy "symlink-to" true (if c = true then to ++ '/' :: baseName from' else to)) = true :=
+          any_okBy _ _ _ _ ⟨true, to⟩ m2 l2 tc2 (by simp)
+        cases sym <;> simp [segOk, k1, k1', k2, k2', hs', ts]
+      by_cases hr : (pol.verdict false to).raises = true
       · simp [hr, segOk, a1, a2, hop1, hop2]
       simp only [hr, Bool.false_eq_true, ↓reduceIte]
-      cases h3 : checkValidPath true (pol.verdict to) to with
+      cases h3 : checkValidPath true (pol.verdict false to) to with
       | none =>
         simp only [List.append_assoc, List.singleton_append, List.nil_append, segOk, a1, a2, Option.toList_some,
           hop1, hop2, true_and, List.cons_append]
@@ -295,7 +306,7 @@ theorem segOk_rename (f : String) (pol : Policy) (ex : List CStr) (sym : Bool) (
         obtain ⟨a3, l3, s3, _⟩ := approved false _ _ _ h3
         simp only [List.append_assoc, List.singleton_append, List.nil_append, segOk, a1, a2, a3, Option.toList_some,
           hop1, hop2, true_and, List.cons_append, s3]
-        refine ⟨any_okBy _ _ _ _ ⟨false, q⟩ (by simp) l3 (covers_self q) (by simp), ?_⟩
+        refine ⟨any_okBy _ _ _ _ ⟨false, q⟩ (by simp) l3 (covers_self _ q) (by simp), ?_⟩
         apply key <;> simp
 
 theorem segOk_cp (f : String) (pol : Policy) (ex : List CStr) (a b : CStr)
@@ -303,23 +314,23 @@ theorem segOk_cp (f : String) (pol : Policy) (ex : List CStr) (a b : CStr)
     segOk f apps (cpEfun pol ex a b) := by
   unfold cpEfun ask
   simp only
-  cases h1 : checkValidPath true (pol.verdict a) a with
+  cases h1 : checkValidPath true (pol.verdict false a) a with
   | none => simp [segOk, hop]
   | some from_ =>
     obtain ⟨a1, l1, s1, n1⟩ := approved false _ _ _ h1
-    cases h2 : checkValidPath true (pol.verdict b) b with
+    cases h2 : checkValidPath true (pol.verdict true b) b with
     | none => simp [segOk, hop]
     | some to =>
       obtain ⟨a2, l2, s2, n2⟩ := approved true _ _ _ h2
-      obtain ⟨tc, ts⟩ := target_ok to from_ (decide (lookup ex to = some Kind.dir)) n2 s2 s1
+      obtain ⟨tc, ts⟩ := target_ok "open" to from_ (decide (lookup ex to = some Kind.dir)) (Or.inl rfl) n2 s2 s1
       simp only [List.append_assoc, List.singleton_append, List.nil_append, segOk, a1, a2, Option.toList_some,
         hop, true_and, List.cons_append, s1]
-      refine ⟨any_okBy _ _ _ _ ⟨false, from_⟩ (by simp) l1 (covers_self _) (by simp), ?_⟩
+      refine ⟨any_okBy _ _ _ _ ⟨false, from_⟩ (by simp) l1 (covers_self _ _) (by simp), ?_⟩
       split
       · trivial
       · simp only [decide_eq_true_eq, List.append_assoc, List.singleton_append] at tc ts
         simp only [segOk, List.append_assoc, List.singleton_append]
-        exact ⟨s2, any_okBy _ _ _ _ ⟨true, to⟩ (by simp) l2 (covers_self _) (by simp), ts,
+        exact ⟨s2, any_okBy _ _ _ _ ⟨true, to⟩ (by simp) l2 (covers_self _ _) (by simp), ts,
                any_okBy _ _ _ _ ⟨true, to⟩ (by simp) l2 tc (by simp), trivial⟩
 
 theorem segOk_save (f : String) (pol : Policy) (ex : List CStr) (a : CStr)
@@ -327,50 +338,69 @@ theorem segOk_save (f : String) (pol : Policy) (ex : List CStr) (a : CStr)
     segOk f apps (saveEfun pol ex a) := by
   unfold saveEfun ask
   simp only
-  cases h : checkValidPath true (pol.verdict (saveName a)) (saveName a) with
+  cases h : checkValidPath true (pol.verdict true (saveName a)) (saveName a) with
   | none => simp [segOk, hop]
   | some P =>
     obtain ⟨a1, l1, s1, _⟩ := approved true _ _ _ h
     have st : safe (P.take 250 ++ str ".tmp") = true :=
       safe_prefix_tmp (P.take 250) (P.drop 250) (by rw [List.take_append_drop]; exact s1)
-    have k1 : ∀ fn, (⟨true, P⟩ :: apps : List Approval).any (okBy fn true (P.take 250 ++ str ".tmp")) = true :=
-      fun fn => any_okBy _ _ _ _ ⟨true, P⟩ (by simp) l1 (covers_tmp P) (by simp)
+    have k1 : ∀ fn, fn = "fopen" ∨ fn = "rename" ∨ fn = "unlink" →
+        (⟨true, P⟩ :: apps : List Approval).any (okBy fn true (P.take 250 ++ str ".tmp")) = true :=
+      fun fn hfn => any_okBy _ _ _ _ ⟨true, P⟩ (by simp) l1 (covers_tmp fn P hfn) (by simp)
+    have k1a := k1 "fopen" (Or.inl rfl)
+    have k1b := k1 "rename" (Or.inr (Or.inl rfl))
+    have k1c := k1 "unlink" (Or.inr (Or.inr rfl))
     have k2 : ∀ fn, (⟨true, P⟩ :: apps : List Approval).any (okBy fn true P) = true :=
-      fun fn => any_okBy _ _ _ _ ⟨true, P⟩ (by simp) l1 (covers_self P) (by simp)
-    simp only [List.singleton_append, segOk, a1, Option.toList_some, hop, true_and, st, k1]
+      fun fn => any_okBy _ _ _ _ ⟨true, P⟩ (by simp) l1 (covers_self _ P) (by simp)
+    simp only [List.singleton_append, segOk, a1, Option.toList_some, hop, true_and, st, k1a]
     split
-    · split <;> simp [segOk, st, s1, k1, k2]
+    · split <;> simp [segOk, st, s1, k1a, k1b, k1c, k2]
     · trivial
 
-theorem segOk_edWrite (f : String) (pol : Policy) (b : CStr) (ld : Bool) (apps : List Approval)
-    (hop : opOk f "ed_start" = true) : segOk f apps (edWrite pol b ld) := by
-  unfold edWrite ask
-  simp only
-  split
-  · cases h2 : checkValidPath true (pol.verdict b) b with
-    | none => simp [segOk, hop]
-    | some Q =>
-      obtain ⟨a2, l2, s2, _⟩ := approved true _ _ _ h2
-      simp only [List.singleton_append, segOk, a2, Option.toList_some, hop, true_and]
-      cases ld with
-      | false => simp [segOk]
-      | true =>
-        simp only [↓reduceIte, segOk, s2, true_and, and_true]
-        exact any_okBy _ _ _ _ ⟨true, Q⟩ (by simp) l2 (covers_self Q) (by simp)
-  · trivial
+theorem edIo_false (r : Option CStr) (w : Bool) : edIo r false w = [] := by
+  cases r <;> rfl
 
-theorem segOk_ed (f : String) (pol : Policy) (ex : List CStr) (a b : CStr) (apps : List Approval)
-    (hop : opOk f "ed_start" = true) : segOk f apps (edEfun pol ex a b) := by
-  unfold edEfun ask
+/-- what every file command of the editor does: ONE consultation of the kind of the access, then at most the
+    `fopen` of exactly the approved path with that kind -/
+theorem segOk_askIo (f : String) (pol : Policy) (w io : Bool) (file : CStr) (apps : List Approval)
+    (hop : opOk f "ed_start" = true) :
+    segOk f apps ((ask pol w file "ed_start").1 ++ edIo (ask pol w file "ed_start").2 io w) := by
+  unfold ask edIo
   simp only
-  cases h1 : checkValidPath true (pol.verdict a) a with
-  | none =>
-    simp only [List.singleton_append, segOk, hop, true_and]
-    exact segOk_edWrite f pol b false _ hop
+  cases h : checkValidPath true (pol.verdict w file) file with
+  | none => simp [segOk, hop]
   | some P =>
-    obtain ⟨a1, l1, s1, _⟩ := approved false _ _ _ h1
-    simp only [List.singleton_append, segOk, a1, Option.toList_some, hop, true_and, s1]
-    exact ⟨any_okBy _ _ _ _ ⟨false, P⟩ (by simp) l1 (covers_self P) (by simp), segOk_edWrite f pol b _ _ hop⟩
+    obtain ⟨a1, l1, s1, _⟩ := approved w _ _ _ h
+    simp only [List.singleton_append, segOk, a1, Option.toList_some, hop, true_and]
+    cases io with
+    | false => simp [segOk]
+    | true =>
+      simp only [↓reduceIte, segOk, s1, true_and, and_true]
+      exact any_okBy _ _ _ _ ⟨w, P⟩ (by simp) l1 (covers_self _ P) (by cases w <;> simp)
+
+theorem segOk_edStep (f : String) (pol : Policy) (ex : List CStr) (st : EdSt) (c : EdCmd) (apps : List Approval)
+    (hop : opOk f "ed_start" = true) : segOk f apps (edStep pol ex st c).1 := by
+  cases c with
+  | start file => exact segOk_askIo f pol false true file apps hop
+  | a t => simp [edStep, segOk]
+  | e arg =>
+    simp only [edStep]
+    split
+    · simp [segOk]
+    · exact segOk_askIo f pol false true _ apps hop
+  | E arg => exact segOk_askIo f pol false true _ apps hop
+  | f arg =>
+    have := segOk_askIo f pol false false (if (if arg = [] then '/' :: st.fname else arg).head? = some '/'
+      then (if arg = [] then '/' :: st.fname else arg) else str "/d/" ++ (if arg = [] then '/' :: st.fname else arg))
+      apps hop
+    rw [edIo_false, List.append_nil] at this
+    exact this
+  | r arg => exact segOk_askIo f pol false true _ apps hop
+  | w arg => exact segOk_askIo f pol true _ _ apps hop
+  | W arg => exact segOk_askIo f pol true _ _ apps hop
+  | x => exact segOk_askIo f pol true true _ apps hop
+  | q => simp [edStep, segOk]
+  | Q => simp [edStep, segOk]
 
 /-- the file efuns of the system-style model (= the keys of the oracle's operation-name table) -/
 def efunNames : List String :=
@@ -407,7 +437,7 @@ theorem efun_segOk (pol : Policy) (ex : List CStr) (efun : String) (a b : CStr) 
   · exact segOk_rename _ _ _ _ _ _ _ (by decide) (by decide)
   · exact segOk_cp _ _ _ _ _ _ (by decide)
   · exact segOk_save _ _ _ _ _ (by decide)
-  · exact segOk_ed _ _ _ _ _ _ (by decide)
+  · exact segOk_edStep _ _ _ _ _ _ (by decide)
 
 /-- **model_satisfies_spec**: for every file efun, every argument string(s), every master policy and every
     file-system content, the oracle finds nothing to object to in the model's trace. -/
@@ -421,17 +451,17 @@ theorem model_satisfies_spec (pol : Policy) (ex : List CStr) (efun : String) (ar
 /-! ### a master without valid_read / valid_write -/
 
 theorem fold_absent (f : String) : ∀ (evs : List Ev) (apps : List Approval) (s : JState),
-    s.bad = [] → s.absent = true → segOk f apps evs →
-    ((evs.filter (fun e => !e.isValid)).foldl judgeStep s).bad = [] := by
+    s.absent = true → segOk f apps evs →
+    (evs.filter (fun e => !e.isValid)).foldl judgeStep s = s := by
   intro evs
   induction evs with
-  | nil => intro _ s h _ _; simpa using h
+  | nil => intro _ s _ _; rfl
   | cons e rest ih =>
-    intro apps s hb ha hs
+    intro apps s ha hs
     cases e with
     | valid w path who op v =>
       obtain ⟨_, _, h3⟩ := hs
-      simpa [Ev.isValid] using ih _ s hb ha h3
+      simpa [Ev.isValid] using ih _ s ha h3
     | fs fn w p =>
       obtain ⟨h1, _, h3⟩ := hs
       have hna : absolute p = false := by
@@ -439,10 +469,10 @@ theorem fold_absent (f : String) : ∀ (evs : List Ev) (apps : List Approval) (s
       have hstep : judgeStep s (.fs fn w p) = s := by
         simp [judgeStep, hna, h1, ha]
       simp only [Ev.isValid, Bool.not_false, List.filter_cons_of_pos, List.foldl_cons, hstep]
-      exact ih apps s hb ha h3
+      exact ih apps s ha h3
     | note n =>
       simp only [Ev.isValid, Bool.not_false, List.filter_cons_of_pos, List.foldl_cons]
-      exact ih apps s hb ha hs
+      exact ih apps s ha hs
     | lp _ _ => exact absurd hs (by simp [segOk])
     | cvp _ _ _ => exact absurd hs (by simp [segOk])
     | sn _ _ => exact absurd hs (by simp [segOk])
@@ -458,7 +488,7 @@ theorem model_satisfies_spec_absent (pol : Policy) (ex : List CStr) (efun : Stri
     judgeEv (.mode true :: .call efun whoObj args :: sysEvents true pol ex efun a b) = [] := by
   unfold judgeEv sysEvents
   simp only [↓reduceIte, List.foldl_cons]
-  have := fold_absent efun _ [] (judgeStep (judgeStep {} (.mode true)) (.call efun whoObj args)) rfl rfl
+  have := fold_absent efun _ [] (judgeStep (judgeStep {} (.mode true)) (.call efun whoObj args)) rfl
     (efun_segOk .allow ex efun a b h)
   rw [this]; rfl
 
@@ -467,6 +497,165 @@ theorem model_satisfies_spec_present (pol : Policy) (ex : List CStr) (efun : Str
     (h : efun ∈ efunNames) :
     judgeEv (.call efun whoObj args :: sysEvents false pol ex efun a b) = [] := by
   simpa [sysEvents] using model_satisfies_spec pol ex efun args a b h
+
+/-! ### editing sessions -/
+
+theorem fold_session (pol : Policy) (ex : List CStr) : ∀ (cmds : List EdCmd) (st : EdSt) (s : JState),
+    s.bad = [] → ((edSession pol ex st cmds).foldl judgeStep s).bad = [] := by
+  intro cmds
+  induction cmds with
+  | nil => intro _ s h; simpa [edSession] using h
+  | cons c cs ih =>
+    intro st s hb
+    unfold edSession
+    by_cases hr : edRuns st c = true
+    · simp only [hr, ↓reduceIte]
+      rw [List.cons_append, List.foldl_cons, List.foldl_append]
+      apply ih
+      exact fold_ok "ed" (by decide) _ (judgeStep s (.call "ed" whoObj c.callArgs)) (by simpa [judgeStep] using hb)
+        rfl rfl (segOk_edStep "ed" pol ex st c [] (by decide))
+    · simp only [hr, Bool.false_eq_true, ↓reduceIte]; exact ih st s hb
+
+/-- **model_satisfies_spec for editing sessions**: for every sequence of editor commands (ed (file), text input,
+    e / E / f / r / w / W with or without a file name, x, q, Q), every file name and every master policy — in
+    particular masters that approve reads and deny writes — every `fopen` of the session is preceded, within the
+    same command, by a consultation of the right kind (valid_write for w / W / x, valid_read for the others) that
+    approved exactly that path. -/
+theorem ed_session_satisfies_spec (pol : Policy) (ex : List CStr) (st : EdSt) (cmds : List EdCmd) :
+    judgeEv (edSession pol ex st cmds) = [] := by
+  unfold judgeEv
+  rw [fold_session pol ex cmds st {} rfl]; rfl
+
+theorem fold_session_absent (ex : List CStr) : ∀ (cmds : List EdCmd) (st : EdSt) (s : JState),
+    s.bad = [] → s.absent = true →
+    (((edSession .allow ex st cmds).filter (fun e => !e.isValid)).foldl judgeStep s).bad = [] := by
+  intro cmds
+  induction cmds with
+  | nil => intro _ s h _; simpa [edSession] using h
+  | cons c cs ih =>
+    intro st s hb ha
+    unfold edSession
+    by_cases hr : edRuns st c = true
+    · simp only [hr, ↓reduceIte]
+      rw [List.cons_append, List.filter_cons_of_pos (by rfl), List.filter_append, List.foldl_cons, List.foldl_append]
+      rw [fold_absent "ed" _ [] _ (by simpa [judgeStep] using ha) (segOk_edStep "ed" .allow ex st c [] (by decide))]
+      exact ih _ _ (by simpa [judgeStep] using hb) (by simpa [judgeStep] using ha)
+    · simp only [hr, Bool.false_eq_true, ↓reduceIte]; exact ih st s hb ha
+
+theorem ed_session_satisfies_spec_absent (pol : Policy) (ex : List CStr) (cmds : List EdCmd) :
+    judgeEv (.mode true :: sysSession true pol ex cmds) = [] := by
+  unfold judgeEv sysSession
+  simp only [↓reduceIte, List.foldl_cons]
+  rw [fold_session_absent ex cmds {} _ rfl rfl]; rfl
+
+/-! ### the compiler: load_object, #include, inherit (no master consultation; the oracle demands confinement) -/
+
+/-- all events are libc calls on safe paths -/
+def allSafeFs (evs : List Ev) : Prop := ∀ e ∈ evs, ∃ fn w p, e = Ev.fs fn w p ∧ safe p = true
+
+theorem fold_compile (f : String) (hf : compileCalls.contains f = true) : ∀ (evs : List Ev) (s : JState),
+    s.efun = f → allSafeFs evs → evs.foldl judgeStep s = s := by
+  intro evs
+  induction evs with
+  | nil => intros; rfl
+  | cons e rest ih =>
+    intro s he h
+    obtain ⟨fn, w, p, rfl, hs⟩ := h e (by simp)
+    have hna : absolute p = false := by
+      simp [safe] at hs; simpa [absolute] using hs.1
+    have hf' : f ∈ compileCalls := by simpa using hf
+    have hstep : judgeStep s (.fs fn w p) = s := by
+      simp [judgeStep, hna, hs, he, hf']
+    rw [List.foldl_cons, hstep]
+    exact ih s he (fun e' he' => h e' (by simp [he']))
+
+theorem judge_compile (f : String) (args : List CStr) (evs : List Ev) (hf : compileCalls.contains f = true)
+    (h : allSafeFs evs) : judgeEv (.call f "-" args :: evs) = [] := by
+  unfold judgeEv
+  rw [List.foldl_cons, fold_compile f hf evs _ rfl h]; rfl
+
+theorem allSafeFs_append {a b : List Ev} (ha : allSafeFs a) (hb : allSafeFs b) : allSafeFs (a ++ b) := by
+  intro e he
+  rcases List.mem_append.mp he with h | h
+  · exact ha e h
+  · exact hb e h
+
+theorem loadEvents_safe (ex : List CStr) (name : CStr) : allSafeFs (loadEvents ex name).1 := by
+  unfold loadEvents
+  cases h : loadAccess name (fun p => (lookup ex p).isSome) with
+  | none => intro e he; simp at he
+  | some a =>
+    simp only
+    apply allSafeFs_append
+    · cases hp : a.probe with
+      | none => intro e he; simp at he
+      | some p =>
+        intro e he
+        simp only [List.mem_singleton] at he
+        exact ⟨_, _, _, he, load_probe_confined name _ a p h (Or.inl hp)⟩
+    · cases hp : a.opened with
+      | none => intro e he; simp at he
+      | some p =>
+        intro e he
+        simp only [List.mem_singleton] at he
+        exact ⟨_, _, _, he, load_probe_confined name _ a p h (Or.inr hp)⟩
+
+theorem includeOpens_go_safe (ex : List CStr) : ∀ ts : List CStr, (∀ t ∈ ts, safe t = true) →
+    allSafeFs (includeOpens.go ex ts) := by
+  intro ts
+  induction ts with
+  | nil => intro _ e he; simp [includeOpens.go] at he
+  | cons t rest ih =>
+    intro h e he
+    simp only [includeOpens.go, List.mem_cons] at he
+    rcases he with rfl | he
+    · exact ⟨_, _, _, rfl, h t (by simp)⟩
+    · split at he
+      · simp at he
+      · exact ih (fun t' ht' => h t' (by simp [ht'])) e he
+
+/-- **model_satisfies_spec, compiler part**: whatever object name is loaded, whatever `#include` / `inherit`
+    name a source file contains, every path the loader model stats or opens is relative and free of "..". -/
+theorem load_model_satisfies_spec (ex : List CStr) (name : CStr) :
+    judgeEv (.call "load" "-" [name] :: (loadEvents ex name).1) = [] :=
+  judge_compile "load" _ _ (by decide) (loadEvents_safe ex name)
+
+theorem include_model_satisfies_spec (base name : CStr) :
+    judgeEv (.call "include" "-" [base, name] :: includeEvents base name) = [] := by
+  apply judge_compile "include" _ _ (by decide)
+  unfold includeEvents
+  simp only
+  apply allSafeFs_append (loadEvents_safe _ _)
+  split
+  · unfold includeOpens
+    apply includeOpens_go_safe
+    intro t ht
+    exact include_path_confined_config [str "/include", str "/"] base name t ht
+  · intro e he; simp at he
+
+theorem inherit_model_satisfies_spec (base name : CStr) :
+    judgeEv (.call "inherit" "-" [base, name] :: inheritEvents base name) = [] := by
+  apply judge_compile "inherit" _ _ (by decide)
+  unfold inheritEvents
+  split
+  · exact loadEvents_safe _ _
+  · apply allSafeFs_append (allSafeFs_append (loadEvents_safe _ _) (loadEvents_safe _ _))
+    split
+    · exact loadEvents_safe _ _
+    · intro e he; simp at he
+
+/-- non-vacuity: a session that writes, and the oracle's objection to a write nobody approved as a write -/
+example : edSession .readOnly [] {} [.start (str "/d/f.txt"), .a (str "x"), .w [], .Q] =
+    [.call "ed" whoObj [str "ed", str "/d/f.txt"], .valid false (str "/d/f.txt") whoObj "ed_start" .ok,
+     .fs "fopen" false (str "d/f.txt"),
+     .call "ed" whoObj [str "a", str "x"],
+     .call "ed" whoObj [str "w", []], .valid true (str "/d/f.txt") whoObj "ed_start" .deny,
+     .call "ed" whoObj [str "Q", []]] := by decide
+example : judgeEv [.call "ed" whoObj [str "ed", str "/d/f.txt"], .valid false (str "/d/f.txt") whoObj "ed_start" .ok,
+     .fs "fopen" false (str "d/f.txt"), .call "ed" whoObj [str "w", []], .fs "fopen" true (str "d/f.txt")] ≠ [] := by
+  decide
+example : judgeEv [.call "ed" whoObj [str "w", []], .valid false (str "/d/f.txt") whoObj "ed_start" .ok,
+     .fs "fopen" true (str "d/f.txt")] ≠ [] := by decide
 
 /-- non-vacuity: a trace with real events, and the oracle does object to an unmediated touch -/
 example : (efunEvents .allow [] "rename" (str "/d/f.txt") (str "/d/sub")).length = 6 := by decide
